@@ -15,7 +15,7 @@ From TxVerif Require Import Lib.Bytes Lib.CfgLib Spec.CfgTypes Spec.TorStore Spe
 Import ListNotations.
 Open Scope N_scope.
 
-Definition c11_scope (i : cfg_input) : bool := in_scope i.
+Definition c11_scope (i : cfg_input) : bool := in_scope i && negb (copy_of_pending i).
 
 Definition oracle (i : cfg_input) (boot_ok : bool) (boot : list rres) (tr : list obs) : bool :=
   full_oracle i boot_ok boot tr.
